@@ -186,45 +186,177 @@ def _size_minus(node):
     raise ExtractionError('not `cvec.size - k`: ' + _u(node))
 
 
-def extract(repo=core.REPO):
-    path = os.path.join(repo, 'odl', 'discr', 'discr_utils.py')
-    with open(path) as f:
-        tree = ast.parse(f.read())
-    lin = _edge_program(_find(tree, ['_compute_linear_weights_edge']))
-    nea = _edge_program(_find(tree, ['_compute_nearest_weights_edge']))
+# ---------------------------------------------------------------------------
+# sound normalisations for the two method bodies that are partly pinned as text
 
-    # --- _NearestInterpolator._evaluate
+class _Inline(ast.NodeTransformer):
+    """replace loads of names bound in `env` by their (already inlined) expressions"""
+
+    def __init__(self, env, keep=()):
+        self.env, self.keep = env, set(keep)
+
+    def visit_Name(self, node):
+        if isinstance(node.ctx, ast.Load) and node.id in self.env and node.id not in self.keep:
+            return ast.parse(_u(self.env[node.id]), mode='eval').body
+        return node
+
+
+def _inline(node, env, keep=()):
+    return _Inline(env, keep).visit(ast.parse(_u(node), mode='eval').body)
+
+
+def _target_names(t):
+    return [n.id for n in ast.walk(t) if isinstance(n, ast.Name)]
+
+
+def _stores(fn):
+    """how often every name is (re)bound in the function"""
+    cnt = {}
+    for n in ast.walk(fn):
+        if isinstance(n, ast.Name) and isinstance(n.ctx, ast.Store):
+            cnt[n.id] = cnt.get(n.id, 0) + 1
+    return cnt
+
+
+def _run_block(stmts, env, out_none, where):
+    """Tiny abstract interpreter for `_NearestInterpolator._evaluate`: straight-line bindings of
+    names (inlined), a list built by `name = []; for ..: name.append(E)` (= list comprehension),
+    branches on `out is None` / `out is not None` decided statically, `out[:] = E`, `return E`.
+    Returns (effects, returned expression) or None if the block falls through."""
+    effects = []
+    i = 0
+    while i < len(stmts):
+        st = stmts[i]
+        i += 1
+        if isinstance(st, ast.Assign) and len(st.targets) == 1 and isinstance(st.targets[0], ast.Name):
+            env[st.targets[0].id] = _inline(st.value, env)
+        elif isinstance(st, ast.For):
+            if not (len(st.body) == 1 and not st.orelse and isinstance(st.body[0], ast.Expr) and
+                    isinstance(st.body[0].value, ast.Call) and not st.body[0].value.keywords and
+                    len(st.body[0].value.args) == 1 and
+                    isinstance(st.body[0].value.func, ast.Attribute) and
+                    st.body[0].value.func.attr == 'append' and
+                    isinstance(st.body[0].value.func.value, ast.Name)):
+                raise ExtractionError(where + ': loop is not `for ..: <list>.append(E)`: ' + _u(st))
+            name = st.body[0].value.func.value.id
+            if _u(env.get(name, ast.Constant(None))) != '[]':
+                raise ExtractionError(where + ': list {} not initialised with []'.format(name))
+            keep = _target_names(st.target)
+            elt = _inline(st.body[0].value.args[0], env, keep)
+            comp = ast.ListComp(elt=elt, generators=[ast.comprehension(
+                target=st.target, iter=_inline(st.iter, env), ifs=[], is_async=0)])
+            env[name] = ast.parse(_u(comp), mode='eval').body
+        elif isinstance(st, ast.Assign) and len(st.targets) == 1 and _u(st.targets[0]) in ('out[:]', 'out[...]'):
+            effects.append(_u(_inline(st.value, env)))
+        elif isinstance(st, ast.If) and _u(st.test) in ('out is None', 'out is not None'):
+            take_body = (_u(st.test) == 'out is None') == out_none
+            r = _run_block(st.body if take_body else st.orelse, env, out_none, where)
+            if r is not None:
+                return effects + r[0], r[1]
+        elif isinstance(st, ast.Return) and st.value is not None:
+            return effects, _u(_inline(st.value, env))
+        else:
+            raise ExtractionError(where + ': statement outside the grammar: ' + _u(st))
+    return None
+
+
+def _extract_nearest_rule(tree):
+    """`_NearestInterpolator._evaluate` -> (mask, then-offset, else-offset).  Accepted up to
+    sound normalisations: list built in a loop vs list / generator comprehension, named
+    intermediate results, either arrangement of the `out` branches."""
+    where = '_NearestInterpolator._evaluate'
     ev = _find(tree, ['_NearestInterpolator', '_evaluate'])
-    body = [_u(s) for s in _strip_doc(ev.body)]
-    want_tail = ['idx_res = tuple(idx_res)',
-                 'if out is not None:\n    out[:] = self.values[idx_res]\n    return out\n'
-                 'else:\n    return self.values[idx_res]']
-    if len(body) != 4 or body[0] != 'idx_res = []' or body[2:] != want_tail:
-        raise ExtractionError('_NearestInterpolator._evaluate changed: ' + repr(body))
-    loop = _strip_doc(ev.body)[1]
-    if not (isinstance(loop, ast.For) and _u(loop.target) == '(i, yi)' and
-            _u(loop.iter) == 'zip(indices, norm_distances)' and len(loop.body) == 1 and
-            not loop.orelse):
-        raise ExtractionError('_NearestInterpolator._evaluate loop changed')
-    call = loop.body[0]
-    if not (isinstance(call, ast.Expr) and _is_call(call.value, 'idx_res.append', 1) and
-            _is_call(call.value.args[0], 'np.where', 3)):
-        raise ExtractionError('index rule is not idx_res.append(np.where(..)): ' + _u(call))
-    w = call.value.args[0]
-    pick_mask = _mask_of_compare(w.args[0], 'yi')
-    pick_a, pick_b = _offset(w.args[1], 'i'), _offset(w.args[2], 'i')
+    if [_u(a) for a in ev.args.args] != ['self', 'indices', 'norm_distances', 'out']:
+        raise ExtractionError(where + ': signature changed')
+    body = _strip_doc(ev.body)
+    # (rebinding such as `idx_res = tuple(idx_res)` is handled in program order)
+    results = {}
+    for out_none in (True, False):
+        r = _run_block(body, {}, out_none, where)
+        if r is None:
+            raise ExtractionError(where + ': no return for out {}'.format('None' if out_none else 'given'))
+        results[out_none] = r
+    (eff_n, ret_n), (eff_g, ret_g) = results[True], results[False]
+    if eff_n or ret_g != 'out' or len(eff_g) != 1 or eff_g[0] != ret_n:
+        raise ExtractionError(where + ': out / no-out branches do not deliver the same expression: '
+                              + repr(results))
+    expr = ast.parse(ret_n, mode='eval').body
+    if not (isinstance(expr, ast.Subscript) and _u(expr.value) == 'self.values' and
+            isinstance(expr.slice, ast.Call) and _u(expr.slice.func) == 'tuple' and
+            len(expr.slice.args) == 1 and not expr.slice.keywords and
+            isinstance(expr.slice.args[0], (ast.ListComp, ast.GeneratorExp))):
+        raise ExtractionError(where + ': result is not self.values[tuple(<comprehension>)]: ' + ret_n)
+    comp = expr.slice.args[0]
+    if not (len(comp.generators) == 1 and not comp.generators[0].ifs and
+            isinstance(comp.generators[0].target, ast.Tuple) and
+            len(comp.generators[0].target.elts) == 2 and
+            all(isinstance(e, ast.Name) for e in comp.generators[0].target.elts) and
+            _u(comp.generators[0].iter) == 'zip(indices, norm_distances)'):
+        raise ExtractionError(where + ': comprehension is not over zip(indices, norm_distances): ' + ret_n)
+    iv, yv = [e.id for e in comp.generators[0].target.elts]
+    w = comp.elt
+    if not _is_call(w, 'np.where', 3):
+        raise ExtractionError(where + ': index rule is not np.where(..): ' + _u(w))
+    return _mask_of_compare(w.args[0], yv), _offset(w.args[1], iv), _offset(w.args[2], iv)
 
-    # --- _Interpolator._find_indices
+
+_PURE_HOIST = ('np.issubdtype',)
+
+
+def _pure(node):
+    for n in ast.walk(node):
+        if isinstance(n, ast.Call):
+            if _u(n.func) not in _PURE_HOIST or n.keywords:
+                return False
+        elif not isinstance(n, (ast.Name, ast.Attribute, ast.Constant, ast.UnaryOp, ast.Not,
+                                ast.Load, ast.expr_context)):
+            return False
+    return True
+
+
+def _extract_find_indices(tree):
+    """`_Interpolator._find_indices` -> dict of constants.  Accepted up to sound normalisations:
+    loop-invariant pure expressions hoisted in front of the loop (inlined again), and
+    `np.clip(idcs, lo, hi, out=idcs)` for the two masked assignments."""
     fi = _find(tree, ['_Interpolator', '_find_indices'])
-    loops = [s for s in _strip_doc(fi.body) if isinstance(s, ast.For)]
+    fbody = _strip_doc(fi.body)
+    loops = [s for s in fbody if isinstance(s, ast.For)]
     if len(loops) != 1 or _u(loops[0].target) != '(xi, cvec)' or \
             _u(loops[0].iter) != 'zip(x, self.coord_vecs)':
         raise ExtractionError('_find_indices loop changed')
-    stmts = [s for s in loops[0].body if not isinstance(s, ast.Try)]
-    if len(loops[0].body) - len(stmts) != 1 or not isinstance(loops[0].body[0], ast.Try):
+    # hoisted loop invariants
+    stores = _stores(fi)
+    env = {}
+    for st in fbody[:fbody.index(loops[0])]:
+        if isinstance(st, ast.Assign) and len(st.targets) == 1 and isinstance(st.targets[0], ast.Name):
+            name = st.targets[0].id
+            if name in ('index_vecs', 'norm_distances'):
+                if _u(st.value) != '[]':
+                    raise ExtractionError('_find_indices: ' + _u(st))
+                continue
+            val = _inline(st.value, env)
+            if stores.get(name, 0) != 1 or not _pure(val) or \
+                    set(_target_names(val)) & {'xi', 'cvec', 'idcs', 'x'}:
+                raise ExtractionError('_find_indices: hoisted statement is not a pure loop invariant: ' + _u(st))
+            env[name] = val
+        else:
+            raise ExtractionError('_find_indices: statement before the loop: ' + _u(st))
+    tail = [_u(s) for s in fbody[fbody.index(loops[0]) + 1:]]
+    if tail != ['return (index_vecs, norm_distances)']:
+        raise ExtractionError('_find_indices: statements after the loop: ' + repr(tail))
+
+    def inl(node):
+        if not env:
+            return node
+        mod = ast.parse(_u(node))
+        mod = _Inline(env).visit(mod)
+        return ast.parse(_u(mod)).body[0]
+    lbody = [inl(s) for s in loops[0].body]
+    stmts = [s for s in lbody if not isinstance(s, ast.Try)]
+    if len(lbody) - len(stmts) != 1 or not isinstance(lbody[0], ast.Try):
         raise ExtractionError('_find_indices: expected exactly one leading try (the dtype cast)')
     # --- the cast of the points to the value dtype
-    tr = loops[0].body[0]
+    tr = lbody[0]
     tb = list(tr.body)
     guard = 'false'
     if len(tb) == 2:
@@ -255,8 +387,8 @@ def extract(repo=core.REPO):
     if not (len(hb) == 2 and isinstance(hb[0], ast.Expr) and isinstance(hb[0].value, ast.Call) and
             _u(hb[0].value.func) == 'warn' and _u(hb[1]) == 'xi = np.asarray(xi, dtype=float)'):
         raise ExtractionError('_find_indices: fallback of the cast changed: ' + repr([_u(t) for t in hb]))
-    if len(stmts) != 5:
-        raise ExtractionError('_find_indices: expected 5 statements after the cast, got {}'
+    if len(stmts) not in (4, 5):
+        raise ExtractionError('_find_indices: unexpected statements after the cast: {}'
                               .format([_u(s) for s in stmts]))
     s0 = stmts[0]
     if not (isinstance(s0, ast.Assign) and _u(s0.targets[0]) == 'idcs' and
@@ -282,17 +414,77 @@ def extract(repo=core.REPO):
                 isinstance(st.targets[0].slice.ops[0], op)):
             raise ExtractionError('_find_indices: clipping statement changed: ' + _u(st))
         return st.targets[0].slice.comparators[0], st.value
-    lb, lv = clip(stmts[1], ast.Lt)
-    hb, hv = clip(stmts[2], ast.Gt)
+    if len(stmts) == 5:
+        lb, lv = clip(stmts[1], ast.Lt)
+        hb_, hv = clip(stmts[2], ast.Gt)
+        rest = stmts[3:]
+    else:
+        # np.clip(idcs, lo, hi, out=idcs)  ==  idcs[idcs < lo] = lo; idcs[idcs > hi] = hi
+        # (also for lo > hi: both give hi everywhere)
+        c = stmts[1]
+        call = c.value if isinstance(c, ast.Expr) else None
+        if not (call is not None and isinstance(call, ast.Call) and _u(call.func) == 'np.clip' and
+                len(call.args) == 3 and _u(call.args[0]) == 'idcs' and
+                [(k.arg, _u(k.value)) for k in call.keywords] == [('out', 'idcs')]):
+            raise ExtractionError('_find_indices: clipping statement changed: ' + _u(c))
+        lb = lv = call.args[1]
+        hb_ = hv = call.args[2]
+        rest = stmts[2:]
     low_b, low_v = _num(lb), _num(lv)
     if low_b.denominator != 1 or low_v.denominator != 1:
         raise ExtractionError('_find_indices: lower clip not integral')
-    hi_b, hi_v = _size_minus(hb), _size_minus(hv)
-    if _u(stmts[3]) != 'index_vecs.append(idcs)':
-        raise ExtractionError('_find_indices: ' + _u(stmts[3]))
-    nd = _u(stmts[4])
+    hi_b, hi_v = _size_minus(hb_), _size_minus(hv)
+    if _u(rest[0]) != 'index_vecs.append(idcs)':
+        raise ExtractionError('_find_indices: ' + _u(rest[0]))
+    nd = _u(rest[1])
     if nd != 'norm_distances.append((xi - cvec[idcs]) / (cvec[idcs + 1] - cvec[idcs]))':
         raise ExtractionError('_find_indices: normalised distance changed: ' + nd)
+    return dict(side='true' if side == 'left' else 'false', off=int(off), lb=int(low_b),
+                lv=int(low_v), hb=hi_b, hv=hi_v, guard=guard, rule=rule)
+
+
+CANONICAL_RULE = ('⟨Cmp.lt, (1 / 2)⟩', 0, 1)
+CANONICAL_FIND = dict(side='true', off=1, lb=0, lv=0, hb=2, hv=2, guard='true', rule='CastRule.safe')
+LAST_INFO = {}
+
+
+def extract(repo=core.REPO):
+    path = os.path.join(repo, 'odl', 'discr', 'discr_utils.py')
+    with open(path) as f:
+        tree = ast.parse(f.read())
+    # the edge / weight programs are translated statement by statement: fail closed
+    lin = _edge_program(_find(tree, ['_compute_linear_weights_edge']))
+    nea = _edge_program(_find(tree, ['_compute_nearest_weights_edge']))
+    info = {'edge_programs': 'source'}
+    # the two method bodies that are partly pinned: syntactic extraction (with sound
+    # normalisations) first; if the source has another shape, the artefact is obtained
+    # behaviourally from the live class of the tree under test and must equal the model's program
+    # on a probe grid covering every branch of the model — otherwise the error stands
+    try:
+        pick_mask, pick_a, pick_b = _extract_nearest_rule(tree)
+        info['nearest_rule'] = 'source'
+    except ExtractionError as e:
+        from extract import interp_probe
+        ok, detail = interp_probe.probe(repo, 'nearest_rule')
+        if not ok:
+            raise ExtractionError('{} ; live probe: {}'.format(e, detail))
+        pick_mask, pick_a, pick_b = CANONICAL_RULE
+        info['nearest_rule'] = 'live ({}; source not understood: {})'.format(detail, str(e)[:160])
+    try:
+        fc = _extract_find_indices(tree)
+        info['find_indices'] = 'source'
+    except ExtractionError as e:
+        from extract import interp_probe
+        ok, detail = interp_probe.probe(repo, 'find_indices')
+        if not ok:
+            raise ExtractionError('{} ; live probe: {}'.format(e, detail))
+        fc = dict(CANONICAL_FIND)
+        info['find_indices'] = 'live ({}; source not understood: {})'.format(detail, str(e)[:160])
+    LAST_INFO.clear()
+    LAST_INFO.update(info)
+    side, off, low_b, low_v, hi_b, hi_v, guard, rule = (fc['side'] == 'true' and 'left' or 'right',
+                                                          fc['off'], fc['lb'], fc['lv'], fc['hb'],
+                                                          fc['hv'], fc['guard'], fc['rule'])
 
     def lst(prog):
         return '[\n    ' + ',\n    '.join(prog) + ']'
